@@ -262,9 +262,14 @@ func (e *Enc) appendOp(fr *Frame, cc *ssa.CallCommon, args []Val, st *State, rea
 			s.sLen(), inner, off, m, s.sRef(), s.sOff(), t.sLen(), sm, t.sRef(), t.sOff(), fits, newLen)
 		// instantiate explicitly for the single-element case, which is by far the most common
 		e.assume(imp(reach, q))
+		// (the quantifier's pattern binds the absolute index, so E-matching never produces the relative instances of the second conjunct)
 		if cst, ok := constInt(t.sLen()); ok && cst <= 4 {
 			for k := int64(0); k < cst; k++ {
 				e.assume(imp(reach, eq(sel(inner, bvadd(off, bvadd(s.sLen(), c64(k)))), sel(sel(sm, t.sRef()), bvadd(t.sOff(), c64(k))))))
+			}
+		} else {
+			for k := int64(0); k < 4; k++ {
+				e.assume(imp(and(reach, app("bvslt", c64(k), t.sLen())), eq(sel(inner, bvadd(off, bvadd(s.sLen(), c64(k)))), sel(sel(sm, t.sRef()), bvadd(t.sOff(), c64(k))))))
 			}
 		}
 		e.pendLo, e.pendHi = bvadd(off, s.sLen()), bvadd(off, newLen)
